@@ -57,7 +57,7 @@ def check(tier, seed):
                 pick = editable if tier == 'thorough' or len(editable) <= 6 else rng.sample(editable, 6)
                 for fn, ft in pick:
                     v = F.in_range_value(rng, ft)
-                    impl2 = C.guarded(F.impl_decsetenc, cls, pay, fn, v)
+                    impl2 = C.guarded(F.impl_decsetenc, cls, pay, fn, v, len(cases) % 3)
                     d2 = dict(desc, field=fn, value=v)
                     cases.append(Case('edit-one-field', f'decsetenc {e["kindspec"]} {C.hexs(pay)} {fn} {v}', impl2, d2, kind=name + '/edit'))
                     # direct locality check on the implementation
